@@ -499,7 +499,7 @@ def infnorm_case(ctx, LP, rng, peaked=False, given=None):
 
 
 def run(tier, seed):
-    ctx = core.Ctx(PROP, tier, seed, "proof", ["C09", "Sup"])
+    ctx = core.Ctx(PROP, tier, seed, "proof", ["C09", "C09b", "Sup"])
     ctx.axioms = core.audit(ctx.modules)
     import pyqsp.LPoly as LP
     ncases = 2500 if tier == "quick" else 25000
@@ -554,7 +554,7 @@ def core_corpus():
 
 def replay(path):
     c = json.load(open(path))
-    ctx = core.Ctx(PROP, "quick", c.get("seed", 0), "proof", ["C09", "Sup"])
+    ctx = core.Ctx(PROP, "quick", c.get("seed", 0), "proof", ["C09", "C09b", "Sup"])
     import pyqsp.LPoly as LP
     if c.get("op") == "history":
         print("history replays: re-run with the recorded seed %s" % c.get("seed"))
